@@ -22,7 +22,7 @@ CHECKS = {
  "C15": (SYS, "Seeded exchanges through gzip at drawn chain positions: Accept-Encoding spellings, content types, sizes around min_size and 64KiB-4MiB(+-1), compressible/incompressible payloads, pre-encoded backend responses, levels -1..9; the client's bytes decoded by the headers it received must equal the backend's body with the backend's status; compressed only if eligible, otherwise byte-identical. The 10MB buffering cap is crossed by a dedicated case (bodies of 10MB+-k through the cap's pass-through path; a few dozen per quick run, more in thorough).", "§3 C15"),
  "C13": (MICRO + " + " + SYS, "Conservation equations at every quiescent point against the harness' own tallies over every request class, sequential and concurrent (micro, exact per backend), and after fault sequences behind the real server (system: totals, classes, gauges at idle).", "§3 C13"),
  "C16": (MICRO + " + " + SYS, "Identifier middleware under concurrent generation at one frozen virtual instant (distinctness, echo, handler-sees-what-client-gets, disabled untouched) and the same invariants on every exchange of the system-level transparency runs.", "§3 C16"),
- "C19": (MICRO, "Stop() at drawn virtual instants (before first probe, mid-probe, between ticks, at a tick) and drawn interleavings with the ticker goroutine, repeated/concurrent Stop calls: bounded return, no probe after return, WaitGroup reuse (a real sync.WaitGroup panic) detected by the instrumented WaitGroup.", "§3 C19"),
+ "C19": (MICRO, "Stop() at drawn virtual instants (before first probe, mid-probe, between ticks, at a tick) and drawn interleavings with the ticker goroutine, repeated/concurrent Stop calls: bounded return, no probe after return, WaitGroup reuse (a real sync.WaitGroup panic) detected by the instrumented WaitGroup; the real shutdownGracefully over the simulated network with requests in flight; the connection pool whose Shutdown Stop calls, shut down in the middle of pool traffic and at the instant of a cleanup tick (returns, leaves no parked connection open).", "§3 C19"),
  "C20": (MICRO, "The real WebSocketPool under 1-3 holder tasks, cleanup ticks and shutdown on the fake clock: exclusivity, staleness, idle bound, closure on shutdown, never closing a held connection. Tunnel part (scenario sysws, system simulation): an Upgrade session through every drawn plugin chain over the driver-mediated network, Connection header in five token-list spellings, binary messages 0-100KB in both directions in drawn interleavings and fragmentations, quiet periods longer than every configured timeout, either side closing: bytes equal in order, close propagated, session never cut by Helios.", "§3 C20"),
 }
 NA = {
